@@ -1,0 +1,112 @@
+//! Verification hooks (feature `verif-hooks`, off by default, add-only).
+//!
+//! Thin public wrappers over crate-private arithmetic, packing and transform kernels so that an
+//! external harness can drive each kernel alone on plain arrays. Nothing here changes the
+//! behaviour of any other item; with the feature off this file is not compiled.
+
+use crate::types::{R, T};
+
+fn to_r<const N: usize>(w: &[[i32; 256]; N]) -> [R; N] { core::array::from_fn(|i| R(w[i])) }
+
+fn to_t<const N: usize>(w: &[[i32; 256]; N]) -> [T; N] { core::array::from_fn(|i| T(w[i])) }
+
+fn from_r<const N: usize>(w: &[R; N]) -> [[i32; 256]; N] { core::array::from_fn(|i| w[i].0) }
+
+fn from_t<const N: usize>(w: &[T; N]) -> [[i32; 256]; N] { core::array::from_fn(|i| w[i].0) }
+
+/// `helpers::infinity_norm` over `N` polynomials.
+#[must_use]
+pub fn infinity_norm<const N: usize>(w: &[[i32; 256]; N]) -> i32 { crate::helpers::infinity_norm(&to_r(w)) }
+
+/// `helpers::center_mod`.
+#[must_use]
+pub fn center_mod(m: i32) -> i32 { crate::helpers::center_mod(m) }
+
+/// `helpers::partial_reduce32`.
+#[must_use]
+pub fn partial_reduce32(a: i32) -> i32 { crate::helpers::partial_reduce32(a) }
+
+/// `helpers::full_reduce32`.
+#[must_use]
+pub fn full_reduce32(a: i32) -> i32 { crate::helpers::full_reduce32(a) }
+
+/// `helpers::partial_reduce64`.
+#[must_use]
+pub fn partial_reduce64(a: i64) -> i32 { crate::helpers::partial_reduce64(a) }
+
+/// `helpers::mont_reduce`.
+#[must_use]
+pub fn mont_reduce(a: i64) -> i32 { crate::helpers::mont_reduce(a) }
+
+/// `helpers::to_mont` over `N` polynomials.
+#[must_use]
+pub fn to_mont<const N: usize>(w: &[[i32; 256]; N]) -> [[i32; 256]; N] { from_t(&crate::helpers::to_mont(&to_t(w))) }
+
+/// `helpers::mat_vec_mul` for a `K` x `L` matrix.
+#[must_use]
+pub fn mat_vec_mul<const K: usize, const L: usize>(
+    a_hat: &[[[i32; 256]; L]; K], u_hat: &[[i32; 256]; L],
+) -> [[i32; 256]; K] {
+    let a: [[T; L]; K] = core::array::from_fn(|i| to_t(&a_hat[i]));
+    from_t(&crate::helpers::mat_vec_mul(&a, &to_t(u_hat)))
+}
+
+/// `helpers::add_vector_ntt` over `N` polynomials.
+#[must_use]
+pub fn add_vector_ntt<const N: usize>(v: &[[i32; 256]; N], w: &[[i32; 256]; N]) -> [[i32; 256]; N] {
+    from_r(&crate::helpers::add_vector_ntt(&to_r(v), &to_r(w)))
+}
+
+/// `ntt::ntt` over `N` polynomials.
+#[must_use]
+pub fn ntt<const N: usize>(w: &[[i32; 256]; N]) -> [[i32; 256]; N] { from_t(&crate::ntt::ntt(&to_r(w))) }
+
+/// `ntt::inv_ntt` over `N` polynomials.
+#[must_use]
+pub fn inv_ntt<const N: usize>(w_hat: &[[i32; 256]; N]) -> [[i32; 256]; N] { from_r(&crate::ntt::inv_ntt(&to_t(w_hat))) }
+
+/// `high_low::power2round` over `N` polynomials; returns `(r1, r0)`.
+#[must_use]
+pub fn power2round<const N: usize>(r: &[[i32; 256]; N]) -> ([[i32; 256]; N], [[i32; 256]; N]) {
+    let (r1, r0) = crate::high_low::power2round(&to_r(r));
+    (from_r(&r1), from_r(&r0))
+}
+
+/// `high_low::decompose`; returns `(r1, r0)`.
+#[must_use]
+pub fn decompose(gamma2: i32, r: i32) -> (i32, i32) { crate::high_low::decompose(gamma2, r) }
+
+/// `high_low::high_bits`.
+#[must_use]
+pub fn high_bits(gamma2: i32, r: i32) -> i32 { crate::high_low::high_bits(gamma2, r) }
+
+/// `high_low::low_bits`.
+#[must_use]
+pub fn low_bits(gamma2: i32, r: i32) -> i32 { crate::high_low::low_bits(gamma2, r) }
+
+/// `high_low::make_hint`.
+#[must_use]
+pub fn make_hint(gamma2: i32, z: i32, r: i32) -> bool { crate::high_low::make_hint(gamma2, z, r) }
+
+/// `high_low::use_hint`.
+#[must_use]
+pub fn use_hint(gamma2: i32, h: i32, r: i32) -> i32 { crate::high_low::use_hint(gamma2, h, r) }
+
+/// `conversion::bit_pack` of one polynomial with range `[-a, b]` into `bytes_out`.
+pub fn bit_pack(w: &[i32; 256], a: i32, b: i32, bytes_out: &mut [u8]) {
+    crate::conversion::bit_pack(&R(*w), a, b, bytes_out);
+}
+
+/// `conversion::bit_unpack` of one polynomial with range `[-a, b]`.
+///
+/// # Errors
+/// Propagates the range error of the wrapped function.
+pub fn bit_unpack(v: &[u8], a: i32, b: i32) -> Result<[i32; 256], &'static str> {
+    crate::conversion::bit_unpack(v, a, b).map(|r| r.0)
+}
+
+/// `hashing::expand_mask` for `L` polynomials.
+#[must_use]
+pub fn expand_mask<const L: usize>(gamma1: i32, rho: &[u8; 64], mu: u16) -> [[i32; 256]; L] {
+    from_r(&crate::hashing::expand_mask::<L>(gamma1, rho, mu))
+}
